@@ -86,6 +86,14 @@ func process1MapMerge(obj map[string]any, mergeFrom *Document, mergeFromDocs []*
 		return nil, err
 	}
 
+	if next2, ok := next.(map[string]any); !ok || !sameMap(obj, next2) {
+		// The result replaces obj instead of being obj merged in place (a
+		// scalar, a list or a $replace: true map was referenced). Leave obj
+		// as it was written, so that other references to it evaluate to the
+		// same result rather than to an emptied map.
+		obj["$merge"] = v
+	}
+
 	return process1(next, mergeFrom, mergeFromDocs, depth)
 }
 
